@@ -6,6 +6,7 @@ package vt
 
 import (
 	"fmt"
+	"os"
 	"strconv"
 	"strings"
 	"unicode/utf8"
@@ -59,34 +60,37 @@ type Cell struct {
 type Decoder func(b []byte) (r rune, n int, more bool)
 
 type Term struct {
-	W, H         int
-	Cells        []Cell
-	X, Y         int
-	Pending      bool
-	Pen          Pen
-	G            [2]byte
-	Shift        int
-	AltFont      bool
-	Modes        map[int]bool // DEC private
-	AModes       map[int]bool
-	CursorVis    bool
-	CursorStyle  int // -1 never set
-	CursorColor  string
-	Title        string
-	TitleStack   []string
-	Alt          bool
-	saved        []Cell
-	sx, sy       int
-	KeypadApp    bool
-	Unknown      map[string]int
-	Errors       []string
-	NErrors      int
-	Stamp        int
-	Acs          map[byte][]rune
-	FFClears     bool
-	Clip         string
-	Bells        int
-	cond         *runewidth.Condition
+	W, H        int
+	Cells       []Cell
+	X, Y        int
+	Pending     bool
+	Pen         Pen
+	G           [2]byte
+	Shift       int
+	AltFont     bool
+	Modes       map[int]bool // DEC private
+	AModes      map[int]bool
+	CursorVis   bool
+	CursorStyle int // -1 never set
+	CursorColor string
+	Title       string
+	TitleStack  []string
+	Alt         bool
+	saved       []Cell
+	sx, sy      int
+	KeypadApp   bool
+	Unknown     map[string]int
+	Errors      []string
+	NErrors     int
+	Stamp       int
+	Acs         map[byte][]rune
+	FFClears    bool
+	Clip        string
+	Bells       int
+	cond        *runewidth.Condition
+	// AcsAlways: the description has an acsc map but no smacs: the glyph bytes belong to the
+	// terminal's one and only character set (PC consoles) and are shown as their glyphs
+	AcsAlways    bool
 	Dec          Decoder
 	Residue      bool // report '%' anywhere and "$<" in text as parameter-language residue
 	lastX, lastY int  // cell of the most recently printed base character (-1 if cursor moved since)
@@ -124,7 +128,7 @@ func New(w, h int) *Term {
 		t.Cells[i].R = ' '
 	}
 	t.cond = runewidth.NewCondition()
-	t.cond.EastAsianWidth = false
+	t.cond.EastAsianWidth = os.Getenv("RUNEWIDTH_EASTASIAN") == "1" // A2: terminal and library agree on widths
 	t.lastX = -1
 	return t
 }
@@ -198,6 +202,9 @@ func (t *Term) breakWide(x, y int) {
 func (t *Term) put(r rune, acs []rune) {
 	t.TextRunes++
 	w := t.cond.RuneWidth(r)
+	if acs != nil {
+		w = 1 // a glyph of the alternate character set always fills one cell, whatever the width of the rune it stands for
+	}
 	if w == 0 {
 		// combining: attach to the base character just printed
 		if t.lastX < 0 {
@@ -245,7 +252,7 @@ func (t *Term) put(r rune, acs []rune) {
 	}
 }
 
-func (t *Term) altActive() bool { return t.AltFont || t.G[t.Shift] == '0' }
+func (t *Term) altActive() bool { return t.AltFont || t.G[t.Shift] == '0' || t.AcsAlways }
 
 // Feed interprets one Write block.
 func (t *Term) Feed(b []byte) {
